@@ -221,6 +221,11 @@ func (fc *FnCtx) privateSkipFn(ins ssa.Instruction, callee *ssa.Function) map[st
 		for k := range keys {
 			local := false
 			for f := range fc.g.writerReachKey(k) {
+				if f == root.fn {
+					// the function under verification itself: a call of it from inside itself would be recursion,
+					// which is outside the supported subset
+					continue
+				}
 				if f.Parent() != nil && outermost(f) == top {
 					local = true
 					break
